@@ -246,7 +246,7 @@ pub fn def() -> PropDef {
     PropDef {
         id: "C13",
         level: "fault_enumeration",
-        rule: "mutating workload of 5-22 calls on a fresh file (create/remove storages and streams in a fixed 8-name namespace, write/write_all in chunks around the buffer capacity through up to 2 handles, seek, set_len, read, flush, close, set_state_bits, CompoundFile::flush; buffer sizes 1024/4096/default, both versions); the fault-free run counts N underlying write+seek+flush calls, then one run per k in [0,N) with call k failing (workloads with N > 1000: a stride of N/1000 plus the first three and last two underlying calls of every API call; ten error kinds in rotation, with and without side effects of the failing call); after an Err the call is retried once. Oracle: (a) the API call during which the fault fired returns Err (Drop exempt, as documented); (b) nothing panics and the worker's CPU budget holds; (c) whenever Stream::flush returns Ok, the underlying writer was flushed and a fresh handle reads back every byte accepted by earlier write calls on that handle at its offset (read-back Err is also a violation); the raw bytes reopened show them too if they open (not judged once a fault has fired inside a create/remove call: the directory in the file may then still link an entry that is gone in memory); the bytes a successful flush made durable are read again after every later CompoundFile::flush and at the end - unless a call touched that stream - and must be unchanged (a read error is tolerated); ranges gained by set_len read as zero. evaluations = executions; a non-trivial item = an execution where the fault hit a call on a handle holding accepted-but-unflushed bytes and a later flush on that handle returned Ok; distinct = distinct (case, k).",
+        rule: "mutating workload of 5-22 calls on a fresh file (create/remove storages and streams in a fixed 8-name namespace, write/write_all in chunks around the buffer capacity through up to 2 handles, seek, set_len, read, flush, close, set_state_bits, CompoundFile::flush; buffer sizes 1024/4096/default, both versions); the fault-free run counts N underlying write+seek+flush calls, then one run per k in [0,N) with call k failing (workloads with N > 1000: a stride of N/1000 plus the first three and last two underlying calls of every API call; ten error kinds in rotation, with and without side effects of the failing call); after an Err the call is retried once. Oracle: (a) the API call during which the fault fired returns Err (Drop exempt, as documented); (b) nothing panics and the worker's CPU budget holds; (c) whenever Stream::flush or CompoundFile::flush returns Ok the underlying writer was flushed, and after Stream::flush a fresh handle reads back every byte accepted by earlier write calls on that handle at its offset (read-back Err is also a violation); the raw bytes reopened show them too if they open (not judged once a fault has fired inside a create/remove call: the directory in the file may then still link an entry that is gone in memory); the bytes a successful flush made durable are read again after every later CompoundFile::flush and at the end - unless a call touched that stream - and must be unchanged (a read error is tolerated); ranges gained by set_len read as zero. evaluations = executions; a non-trivial item = an execution where the fault hit a call on a handle holding accepted-but-unflushed bytes and a later flush on that handle returned Ok; distinct = distinct (case, k).",
         assumptions: &["single faults are enumerated exhaustively per workload; workloads are sampled", "offsets truncated (or possibly truncated by a failed set_len) are dropped from the expectation"],
         quick_cases: 12,
         thorough_cases: 200,
